@@ -86,6 +86,41 @@ let rec take_clients k l =
         ((opt_bytes_of_hex a, fp_of_hex x) :: cs, rest')
     | _ -> failwith "client list too short"
 
+(* ---- GGM ---- *)
+let bits_to_string (b : bool list) = String.concat "" (List.map (fun x -> if x then "1" else "0") b)
+let gerr_name = function NoPrefixFound -> "NoPrefixFound" | AlreadyPunctured -> "AlreadyPunctured" | BadInputLength -> "BadInputLength"
+let fnv_state (g : bytes gstate) : string =
+  let h = ref 0xcbf29ce484222325L in
+  let eat (b : int) = h := Int64.mul (Int64.logxor !h (Int64.of_int b)) 0x100000001b3L in
+  List.iter (fun (p, s) ->
+      List.iter (fun b -> eat (if b then 1 else 0)) p; eat 2;
+      List.iter (fun b -> eat (int_of_n b)) s; eat 3) g.gPrefixes;
+  eat 4;
+  List.iter (fun p -> List.iter (fun b -> eat (if b then 1 else 0)) p; eat 2) g.gPunctured;
+  Printf.sprintf "%016Lx" !h
+let state_string (g : bytes gstate) : string =
+  Printf.sprintf "[%s] [%s]"
+    (String.concat "," (List.map (fun (p, s) -> bits_to_string p ^ ":" ^ hex_of_bytes s) g.gPrefixes))
+    (String.concat "," (List.map bits_to_string g.gPunctured))
+let gop_of_string (t : string) : gop =
+  let arg = String.sub t 1 (String.length t - 1) in
+  match t.[0] with
+  | 'e' -> GEval (bytes_of_hex arg)
+  | 'p' -> GPunct (bytes_of_hex arg)
+  | _ -> failwith "bad ggm op"
+(* run step by step so that the state digest after each successful puncture can be printed *)
+let ggm_run_string k0 k1 s0 s1 (ops : gop list) : string =
+  let g = ref (ginit s0 s1) in
+  let outs = List.map (fun o ->
+      let g', (v, e) = ggm_step k0 k1 !g o in
+      g := g';
+      match o, v, e with
+      | GEval _, Some x, _ -> "v:" ^ hex_of_bytes x
+      | _, _, Some er -> "E:" ^ gerr_name er
+      | GPunct _, _, None -> "ok#" ^ fnv_state g'
+      | GEval _, None, None -> "E:?") ops in
+  String.concat " " outs ^ " | " ^ state_string !g
+
 let dispatch (w : string list) : string =
   match w with
   (* ---------------- field ---------------- *)
@@ -152,7 +187,13 @@ let dispatch (w : string list) : string =
       | Ok None -> "nofuel"
       | Err -> "err"
       | Panic -> "panic")
-  | "adss.recover" :: shares -> (
+  | [ "wasm.mat"; m; e; t; x ] -> (
+      match wasm_material kf (bytes_of_hex m) (bytes_of_hex e) (n_of_string t) (fp_of_hex x) with
+      | Ok (Some ((k, sh), tg)) -> Printf.sprintf "key=%s share=%s tag=%s" (hex_of_bytes k) (hex_of_bytes (ashare_to_bytes sh)) (hex_of_bytes tg)
+      | Ok None -> "nofuel"
+      | Err -> "err"
+      | Panic -> "panic")
+  | "star.shrec" :: shares | "adss.recover" :: shares -> (
       match adss_recover (List.map bytes_of_hex shares) with
       | Ok c ->
           let h = sharing_of kf c in
@@ -191,6 +232,8 @@ let dispatch (w : string list) : string =
       | Err -> "err"
       | Panic -> "panic")
   | [ "star.parse"; b ] -> pay_to_string (parse_payload (bytes_of_hex b))
+  | "ggm.run" :: k0 :: k1 :: s0 :: s1 :: ops ->
+      ggm_run_string (bytes_of_hex k0) (bytes_of_hex k1) (bytes_of_hex s0) (bytes_of_hex s1) (List.map gop_of_string ops)
   | _ -> failwith "unknown command"
 
 let () =
